@@ -42,6 +42,10 @@ def walk (f : K → V → Bool) : List (K × Item V) → List (K × V)
   | [] => []
   | (k, i) :: rest => if f k i.v then (k, i.v) :: walk f rest else [(k, i.v)]
 
+/-- the clock advances by `δ ≥ 0`: entries whose instant has passed are gone -/
+def tick (s : St K V) (δ : Nat) : St K V :=
+  { s with now := s.now + δ, live := s.live.filter fun p => !expired p.2.e (s.now + δ) }
+
 /-- logical result of one call: new state, result, user-function invocations -/
 def step (s : St K V) : Op K V → St K V × Out K V × List (FnCall V)
   | .set k v d => (storeItem s k v d, .unit, [])
@@ -98,8 +102,17 @@ def step (s : St K V) : Op K V → St K V × Out K V × List (FnCall V)
   | .setDefaultExpiration d => ({ s with dflt := d }, .unit, [])
   | .evictedCallback => (s, .cb s.cb, [])
   | .setEvictedCallback c => ({ s with cb := c }, .unit, [])
-  | .tick δ =>
-    ({ s with now := s.now + δ, live := s.live.filter fun p => !expired p.2.e (s.now + δ) }, .unit, [])
+  | .tick δ => (tick s δ, .unit, [])
+  -- user functions that take time: the function sees the entry that is live when it is called; the call takes
+  -- effect (and the new entry's TTL starts) when the function has returned, `δ` later
+  | .getOrComputeSlow k f d δ =>
+    match s.live.get k with
+    | some i => (s, .val i.v true, [])
+    | none => (storeItem (tick s δ) k f d, .val f false, [.f])
+  | .computeSlow k g d δ =>
+    let old := (s.live.get k).map (·.v)
+    if (g old).2 then ({ (tick s δ) with live := (tick s δ).live.erase k }, .val (old.getD default) false, [.g old])
+    else (storeItem (tick s δ) k (g old).1 d, .val (g old).1 true, [.g old])
 
 def run (s : St K V) : List (Op K V) → St K V × List (Out K V × List (FnCall V))
   | [] => (s, [])
